@@ -24,4 +24,5 @@ use std::future::Future;
 //@ include prelude/outline.rs
 //@ include prelude/regex.rs
 //@ include prelude/encoding.rs
+//@ include prelude/chrono_parse.rs
 //@ include prelude/deps_auth.rs
